@@ -182,6 +182,25 @@ func (c07) Run(t *tape.Tape, st *Stats) *Violation {
 	} else {
 		t.Intn(1)
 	}
+	// chained loads: in a quarter of the runs the returned stream is handed to one
+	// or two further loaders (what autometa does internally, and what a caller may
+	// do by hand); the last stream must still replay everything
+	chain := ""
+	if t.Chance(1, 4) && res.Panic == nil && res.Stream != nil {
+		depth := 1 + t.Intn(2)
+		for d := 0; d < depth; d++ {
+			l := Loaders[t.Intn(len(Loaders))]
+			r := SafeLoad(l, res.Stream)
+			chain += " -> " + l.Name
+			if r.Panic != nil || r.Stream == nil {
+				res = r
+				break
+			}
+			res.Stream = r.Stream
+		}
+	} else {
+		t.Intn(2)
+	}
 	var got simio.Consumed
 	if res.Panic == nil && res.Stream != nil {
 		got = cons.Consume(res.Stream, in.Data)
@@ -203,7 +222,7 @@ func (c07) Run(t *tape.Tape, st *Stats) *Violation {
 	}
 	render := func() interface{} {
 		return map[string]interface{}{
-			"input": in.Desc, "input_class": in.Class, "input_len": len(in.Data), "stored_faults": in.Faults, "interposed_load": interposed,
+			"input": in.Desc, "input_class": in.Class, "input_len": len(in.Data), "stored_faults": in.Faults, "interposed_load": interposed, "chained_through": chain,
 			"loader": loader.Name, "delivery": cfg.String(), "consumer": cons.String(),
 			"delivered_during_load": duringLoad, "delivered_total": src.Delivered,
 			"load_error": fmt.Sprint(res.Err), "replayed_len": got.N, "replay_error": fmt.Sprint(got.Err),
@@ -214,9 +233,13 @@ func (c07) Run(t *tape.Tape, st *Stats) *Violation {
 		st.Sample(render())
 	}
 	st.Probe("interposed_load_between_Load_and_reading", interposed != "")
+	st.Probe("chained_loads", chain != "")
 	fail := func(class, detail string) *Violation {
 		if interposed != "" {
 			detail += " [after an interposed load: " + interposed + "]"
+		}
+		if chain != "" {
+			detail += " [stream chained through" + chain + "]"
 		}
 		return &Violation{Class: class, Sig: loader.Name + ":" + class, Detail: detail, Render: render()}
 	}
